@@ -257,6 +257,8 @@ type vlLifeEnv struct {
 	fail     map[int]bool
 	failAt   []bool // drawn when the case starts (replay-stable): the id-th retrieved value's Close fails
 	shutdown int
+	quiet    bool           // reference run on a fresh resolver: no ids, no Close bookkeeping
+	twin     map[string]any // pristine deep copy of tab: the resolver must not write into provider-owned values
 }
 
 type vlLifeProv struct {
@@ -276,13 +278,20 @@ func (p *vlLifeProv) Retrieve(_ context.Context, uri string, _ WatcherFunc) (*Re
 	if !ok {
 		return nil, errors.New("verif-provider-error: not found")
 	}
+	if p.scheme == "env" && p.e.quiet {
+		return NewRetrieved(vlClone(v))
+	}
 	id := p.e.next
 	p.e.next++
 	if id < len(p.e.failAt) && p.e.failAt[id] {
 		p.e.fail[id] = true
 	}
 	p.e.rets = append(p.e.rets, id)
-	return NewRetrieved(vlClone(v), WithRetrievedClose(func(context.Context) error {
+	if p.scheme == "src" {
+		v = vlClone(v)
+	}
+	// env values are handed out as the SAME object every time (Retrieved.AsRaw passes it on without a copy)
+	return NewRetrieved(v, WithRetrievedClose(func(context.Context) error {
 		p.e.closes = append(p.e.closes, id)
 		if p.e.fail[id] {
 			return fmt.Errorf("verif-close-error %d", id)
@@ -419,10 +428,23 @@ func vlLifeCase(out *vOut, idx int, rnd *rand.Rand, prog []string) {
 	}
 	closedAll := map[int]int{}
 	issued := 0
+	var lastConf *Conf
+	e.twin = vlClone(e.tab).(map[string]any)
 	for step, what := range prog {
-		if step > 0 && what == "resolve" && rnd.IntN(2) == 0 {
-			// the environment changes between two Resolve calls
-			e.tab = vlGenTab(rnd)
+		if step > 0 && what == "resolve" {
+			// the environment changes between two Resolve calls: everything anew, or only the plain string values while the
+			// maps / lists that refer to them stay the very same objects
+			switch rnd.IntN(3) {
+			case 0:
+				e.tab = vlGenTab(rnd)
+			case 1:
+				for _, n := range vlNames {
+					if sv, ok := e.tab[n].(string); ok && !strings.Contains(sv, "${") && rnd.IntN(2) == 0 {
+						e.tab[n] = "w" + n + strconv.Itoa(step)
+					}
+				}
+			}
+			e.twin = vlClone(e.tab).(map[string]any)
 		}
 		e.rets, e.closes = nil, nil
 		var opErr error
@@ -430,7 +452,7 @@ func vlLifeCase(out *vOut, idx int, rnd *rand.Rand, prog []string) {
 		func() {
 			defer func() { panicked = recover() }()
 			if what == "resolve" {
-				_, opErr = r.Resolve(context.Background())
+				lastConf, opErr = r.Resolve(context.Background())
 			} else {
 				opErr = r.Shutdown(context.Background())
 			}
@@ -456,6 +478,35 @@ func vlLifeCase(out *vOut, idx int, rnd *rand.Rand, prog []string) {
 		out.Linef("stat life_%s 1", what)
 		if opErr != nil {
 			out.Linef("stat life_%s_err 1", what)
+		}
+		// direct oracle: provider-owned values are as they were (deep comparison with the pristine twin)
+		if vEnc(e.tab) != vEnc(e.twin) {
+			out.Linef("viol sig=C12/provider/provider-owned-value-mutated step=%d was=%s now=%s", step, vEnc(e.twin), vEnc(e.tab))
+		}
+		// direct oracle: what this Resolve returned is what a FRESH resolver returns for the current provider state
+		if what == "resolve" {
+			fe := &vlLifeEnv{tab: vlClone(e.twin).(map[string]any), srcs: e.srcs, fail: map[int]bool{}, quiet: true}
+			ff := []ProviderFactory{
+				NewProviderFactory(func(ProviderSettings) Provider { return &vlLifeProv{scheme: "env", e: fe} }),
+				NewProviderFactory(func(ProviderSettings) Provider { return &vlLifeProv{scheme: "src", e: fe} }),
+			}
+			var fconf *Conf
+			var ferr error
+			if fr, e2 := NewResolver(ResolverSettings{URIs: uris, ProviderFactories: ff}); e2 == nil {
+				func() {
+					defer func() { _ = recover() }()
+					fconf, ferr = fr.Resolve(context.Background())
+				}()
+			}
+			switch {
+			case opErr == nil && ferr == nil && fconf != nil && lastConf != nil:
+				out.Linef("stat life_fresh_compared 1")
+				if got, want := vEnc(lastConf.ToStringMap()), vEnc(fconf.ToStringMap()); got != want {
+					out.Linef("viol sig=C12/provider/stale-value-after-provider-change step=%d want=%s got=%s", step, want, got)
+				}
+			case (opErr == nil) != (ferr == nil) && closeErr == 0:
+				out.Linef("viol sig=C12/provider/stale-value-after-provider-change step=%d resolver-err=%v fresh-err=%v", step, opErr != nil, ferr != nil)
+			}
 		}
 		// direct oracles, independent of the model
 		for _, id := range e.closes {
